@@ -41,7 +41,7 @@ CHECKS = {
  'C12': ('panic recorder around every public observer applied to every part of parsed hostile packets; thorough adds a coverage-guided libFuzzer+ASan target through the same oracle and Miri',
          'Exploration: ~100 observer calls per packet over hostile-byte reference messages, corpus and havoc.',
          'Only panics are judged.'),
- 'C13': ('executable store/reply model vs build_reply (hook) over a bounded-exhaustive universe of colliding names plus random histories; thorough adds Miri and coverage-guided libFuzzer+ASan tapes through the same oracle',
+ 'C13': ('executable store/reply model vs build_reply (hook) over a bounded-exhaustive universe of colliding names plus random histories, and the same judgement on the reply datagrams of real sync/tokio responders on loopback multicast (sampled); thorough adds Miri and coverage-guided libFuzzer+ASan tapes through the same oracle',
          'Bounded-exhaustive: all stores of <= 3 (quick) / <= 4 (thorough) records over 6 colliding owner names x {A,TXT,SRV} x {authoritative,cached} x all 2352 queries of <= 2 questions; plus tens of thousands of random add/remove/clear histories with 9 record types, 2 classes, ANY/MAILB.',
          'Model reads the statement in its weaker sense where it is ambiguous (subdomain matches allowed, exact-name matches required).'),
  'C14': ('global panic hook + RwLock poison probe + reply re-parse over the re-enacted handler pipelines (all inputs) and the real sync/tokio services on loopback multicast with marker queries (sampled); thorough adds valgrind memcheck on the real services and a coverage-guided libFuzzer+ASan target over the handling pipelines',
